@@ -40,17 +40,20 @@ def setup_transit(prog, tag=""):
     lat = z3.Real("lat" + tag)
     st.add([lon >= -180, lon <= 180, sid > rv("-0.01"), sid < rv("360.01"), lat >= -90, lat <= 90])
     zero = Fraction(0)
-    astros = [mk_astro(I, zero, zero, ras[k], Fraction(1), sid if k == 1 else z3.Real("sid_%d%s" % (k, tag))) for k in range(3)]
+    decs = [z3.Real("dec_%d%s" % (k, tag)) for k in range(3)]
+    for dv in decs:
+        st.add([dv >= rv("-23.7"), dv <= rv("23.7")])
+    astros = [mk_astro(I, zero, decs[k], ras[k], Fraction(1), sid if k == 1 else z3.Real("sid_%d%s" % (k, tag))) for k in range(3)]
     tad = mk_tad(I, lat, lon, Fraction(0), astros)
     tc = st.alloc(tad)
-    V = {"ras": ras, "unw": unw, "lon": lon, "sid": sid, "lat": lat}
+    V = {"ras": ras, "unw": unw, "lon": lon, "sid": sid, "lat": lat, "decs": decs}
     V.update(info)
     return S, I, st, tc, V
 
 
 def mf_transit(V):
     def mf(m):
-        return {"ra": [mval(m, x) for x in V["ras"]], "lon": mval(m, V["lon"]), "sid": mval(m, V["sid"]), "lat": mval(m, V["lat"]),
+        return {"ra": [mval(m, x) for x in V["ras"]], "dec": [mval(m, x) for x in V["decs"]], "lon": mval(m, V["lon"]), "sid": mval(m, V["sid"]), "lat": mval(m, V["lat"]),
                 "step_p": mval(m, V["step_p"]), "step_n": mval(m, V["step_n"])}
     return mf
 
@@ -119,12 +122,12 @@ def dhuhr_transit(prog, _):
         for c in o.st.pc[n0:]:
             if z3.is_eq(c) and c.arg(0).num_args() == 0 and c.arg(0).decl().kind() == z3.Z3_OP_UNINTERPRETED:
                 defs[c.arg(0).decl().name()] = (c.arg(0), c.arg(1))
-        ms = [v for k, (v, t) in defs.items() if k.startswith("cap_angle_1!")]
-        hs = [v for k, (v, t) in defs.items() if k.startswith("cap_angle_between_180!")]
-        if len(ms) != 1 or len(hs) != 1:
-            res["inconclusive"].append("unexpected shape of the transit computation (%d day fractions, %d hour angles)" % (len(ms), len(hs)))
+        hs = [v for k, (v, t) in defs.items() if k.startswith(("cap_angle_between_180!", "get_hour_angle!"))]
+        if len(hs) < 1:
+            res["inconclusive"].append("unexpected shape of the transit computation (%d hour angles)" % len(hs))
             continue
-        m, H = ms[0], hs[0]
+        H = hs[0]
+        m = dh / 24 + H / 360          # the day fraction the correction was applied to (dhuhr = 24 (m - H/360))
         R = lambda x: x * (d1 + d2 * x) / 2
         ms_ = m - H / 360
         L = lambda x: V["sid"] + RATE * x + V["lon"] - uc - R(x)
@@ -221,6 +224,9 @@ def sdm_wiring(prog, _):
                     conds.append(to_z3(has[k + 1][3]) == to_z3(mt))
                     wv = x[2]
                     conds.append(z3.And(to_z3(wv.fields[0].fields[0]) == pr, to_z3(wv.fields[1].fields[0]) == te))
+                    dd = x[3]
+                    dp_, dc_, dn_ = V["decs"]
+                    conds.append(z3.And(to_z3(dd.items[0]) == dn_ - dp_, to_z3(dd.items[1]) == dn_ - 2 * dc_ + dp_))
                 if not (sh.disc == 0 and mg.disc == 0 and sh.pay["Ok"][0] is outv[0] and mg.pay["Ok"][0] is outv[1]):
                     bad.append("results are not (first correction, transit, second correction)")
                 conds.append(okb)
